@@ -12,7 +12,7 @@ Definition is_marker (e:event) : bool := match e with Begin | Commit => true | _
 Definition content (e:event) : bool := negb (is_marker e) && negb (is_sep_ev e).
 Definition is_auto (e:event) : bool := match e with Stmt _ _ true => true | _ => false end.
 Definition step_of (e:event) : option N :=
-  match e with Running k | Stmt k _ _ | VersionStmt k | CreateVT k => Some k | _ => None end.
+  match e with Running k | Stmt k _ _ | VersionStmt k _ | CreateVT k => Some k | _ => None end.
 Definition strip_sep (l:list event) : list event := filter (fun e => negb (is_sep_ev e)) l.
 
 (* The grammar (BEGIN x* COMMIT | y)* as an automaton with depth in {0,1}:
@@ -52,7 +52,7 @@ Fixpoint expected_steps (k:N) (empty:bool) (steps:list ostep) : list event :=
   match steps with
   | [] => if empty then [DropVT] else []
   | s :: r => (if empty then [CreateVT k] else []) ++ Running k :: flat_map (item_events k) (os_body s)
-              ++ repeat (VersionStmt k) (os_nver s) ++ expected_steps (N.succ k) (os_empty_after s) r
+              ++ map (VersionStmt k) (vidx (os_nver s)) ++ expected_steps (N.succ k) (os_empty_after s) r
   end.
 Definition expected_content (r:run) : list event := expected_steps 0 (r_init_empty r) (r_steps r).
 
@@ -90,7 +90,7 @@ Definition C18_events_hold (tddl per_mig:bool) (r:run) (evs:list event) : Prop :
 (* ---- a run cut short by an exception (in the last step of r_steps) *)
 Definition step_content (k:N) (empty:bool) (s:ostep) : list event :=
   (if empty then [CreateVT k] else []) ++ Running k :: flat_map (item_events k) (os_body s)
-  ++ repeat (VersionStmt k) (os_nver s).
+  ++ map (VersionStmt k) (vidx (os_nver s)).
 Fixpoint expected_cut (k:N) (empty:bool) (steps:list ostep) : list event :=
   match steps with
   | [] => []
@@ -118,7 +118,8 @@ Definition C18_holds (i:in_C18) (o:out_C18) : Prop :=
 Definition event_eqb (a b:event) : bool :=
   match a, b with
   | Begin, Begin | Commit, Commit | Sep, Sep | DropVT, DropVT => true
-  | Running k, Running k' | VersionStmt k, VersionStmt k' | CreateVT k, CreateVT k' => N.eqb k k'
+  | Running k, Running k' | CreateVT k, CreateVT k' => N.eqb k k'
+  | VersionStmt k j, VersionStmt k' j' => N.eqb k k' && N.eqb j j'
   | Stmt k p a, Stmt k' p' a' => N.eqb k k' && N.eqb p p' && Bool.eqb a a'
   | Unknown t, Unknown t' => str_eqb t t'
   | _, _ => false
@@ -168,7 +169,8 @@ Definition check_C18 (i:in_C18) (o:out_C18) : bool :=
 Definition rchunk_eqb (a b:rchunk) : bool :=
   match a, b with
   | RRaw t, RRaw t' => str_eqb t t'
-  | RRunning k, RRunning k' | RVersion k, RVersion k' | RCreate k, RCreate k' => N.eqb k k'
+  | RRunning k, RRunning k' | RCreate k, RCreate k' => N.eqb k k'
+  | RVersion k j, RVersion k' j' => N.eqb k k' && N.eqb j j'
   | RStmt k p a, RStmt k' p' a' => N.eqb k k' && N.eqb p p' && Bool.eqb a a'
   | RDrop, RDrop => true
   | _, _ => false
